@@ -462,3 +462,26 @@ PROPS["C16"] = dict(
                  "the registry content depends on cargo features; the native unit uses native+deflate"],
     uncovered=["transfer syntaxes contributed through the inventory registry at link time", "other feature combinations of the registry crate"],
 )
+
+# ----------------------------------------------------------------------- C20
+_RLE = "transfer-syntax-registry/src/adapters/rle_lossless.rs"
+PROPS["C20"] = dict(
+    level="exploration",
+    units=[
+        N("C20.rle",
+          "cp /repo/Cargo.lock /verif/witness/Cargo.lock && CARGO_TARGET_DIR=/verif/build/witness cargo run --offline -q --release "
+          "--manifest-path /verif/witness/Cargo.toml --bin c20_rle 2>&1 | grep -E '^(WITNESS|EXHAUSTIVE|error)' | tail -12",
+          "RleLosslessAdapter::decode and decode_frame (real adapter, reached through entries::RLE_LOSSLESS.codec()) on images encoded by a "
+          "reference PS3.5 Annex G encoder: output == little-endian pixel-interleaved samples, whole == concatenation of the frames",
+          bound="8/16 bits allocated x 1/3 samples per pixel x 1-3 pixels x 1-2 frames x 4 literal/replicate splits (incl. -128 no-ops) x 3 "
+                "contents (every byte unique, all equal, alternating): 288 images — native enumeration, NOT a deductive result",
+          fns=[(_RLE, "decode", r"impl\s+PixelDataReader\s+for\s+RleLosslessAdapter"),
+               (_RLE, "decode_frame", r"impl\s+PixelDataReader\s+for\s+RleLosslessAdapter"), (_RLE, "read_rle_header"),
+               (_RLE, "new", r"impl\s+PackBitsReader")]),
+    ],
+    assumptions=["the contract technique does not reach this adapter: Kani exceeded 900 s on a 2-pixel 8-bit image (dyn PixelDataObject, io::Cursor, "
+                 "Read::take, read_to_end), and the text is outside Verus' subset (step_by/enumerate adapters, dyn objects); the unit is a "
+                 "labelled bounded stand-in by native enumeration",
+                 "the reference encoder in the unit (most significant byte plane first, PackBits per G.3.1) is the oracle"],
+    uncovered=["images larger than the bound", "malformed fragments (C05)"],
+)
